@@ -1,6 +1,6 @@
 (* Property C05 — theorems only. Each is closed by [exact] and followed by Print Assumptions. *)
 From Coq Require Import List NArith Bool Arith.
-From RopeVerif.C05 Require Import Layout LayoutProofs Move Domain MoveProofs RenameProofs ToPackageProofs Refute RefuteProofs.
+From RopeVerif.C05 Require Import Layout LayoutProofs Move Domain MoveProofs RootProofs RenameProofs ToPackageProofs Refute RefuteProofs.
 Import ListNotations.
 
 (* libutils.modname is inverted by Project.find_module: for every layout (any depth, any number of source
@@ -31,19 +31,21 @@ Print Assumptions C05_relative_inverse.
    source folder, nothing named b at the destination, ...): for a client written in one of the styles
      import p.b | import p.b as x | from p import b [as x] | from p.b import g [as k] | from p.b import *
      | from . import b | from .b import g [as k]
+   — and, for the variant of the code whose import context knows the importing module's folder
+   (v_relctx V = true, proposed_fixes/C05-relative-from-import-context.diff), also  from . import b as x  —
    with any number of references to the module and its globals through the bound name, the model of
    MoveModule._change_occurrences_in_module terminates without raising, keeps the number and order of the
    references, and every reference that meant object o before (Python's semantics: resolve_ref, including
    "is the submodule loaded") means the moved object after, in the moved tree. *)
 Theorem C05_move_module_refs :
-  forall (w : world) (p : path) (b : N) (dest : path),
+  forall (V : variant) (w : world) (p : path) (b : N) (dest : path),
     legal_move w p b dest = true ->
     forall (folder : path) (name : N) (st : style) (refs : list dotted),
-      style_side w p b dest folder st = true ->
+      style_side V w p b dest folder st = true ->
       forallb (ref_ok w p b st) refs = true ->
       let m := client_of p b folder name st refs in
       exists m',
-        change_occurrences w (RPy p b) dest m = Done m'
+        change_occurrences V w (RPy p b) dest m = Done m'
         /\ m_folder m' = folder /\ m_name m' = name
         /\ length (m_refs m') = length (m_refs m)
         /\ forall i r o,
@@ -56,13 +58,41 @@ Print Assumptions C05_move_module_refs.
 
 (* The same statement for the boolean domain predicate the correspondence run evaluates on every case. *)
 Theorem C05_move_module_domain :
-  forall (w : world) (p : path) (b : N) (dest : path) (m : pymod),
-    move_domain w (RPy p b) dest m = true ->
-    exists m', move_module_text w (RPy p b) dest m = Done m'
+  forall (V : variant) (w : world) (p : path) (b : N) (dest : path) (m : pymod),
+    move_domain V w (RPy p b) dest m = true ->
+    exists m', move_module_text V w (RPy p b) dest m = Done m'
                /\ m_folder m' = m_folder m /\ m_name m' = m_name m
                /\ refs_preserved w p b dest m m'.
 Proof. exact move_module_domain. Qed.
 Print Assumptions C05_move_module_domain.
+
+(* Destination = project root, for the variant of the code in which _change_import_statements also runs when
+   the destination has no module name (v_rootfrom V = true, proposed_fixes/C05-move-to-source-root-from-imports.diff):
+   a client  from p import b [as x]  is rewritten to  import b [as x]  and every reference through the bound
+   name reaches the moved module / its globals.  (As found, the aliased form is C05_move_to_root_refuted.) *)
+Theorem C05_move_to_root_refs :
+  forall (V : variant) (w : world) (p : path) (b : N) (m : pymod),
+    root_domain V w (RPy p b) m = true ->
+    exists m', move_module_text V w (RPy p b) [] m = Done m'
+               /\ m_folder m' = m_folder m /\ m_name m' = m_name m /\ m_refs m' = m_refs m
+               /\ forall r o, In r (m_refs m) -> resolve_ref w m r = Some o ->
+                    resolve_ref (move_world (RPy p b) [] w) m' r = Some (move_obj (move_res (RPy p b) []) o).
+Proof. exact move_to_root_domain. Qed.
+Print Assumptions C05_move_to_root_refs.
+
+(* The witnesses of C05_move_relative_alias_refuted and C05_move_to_root_refuted (and the AttributeError of
+   C05_move_crash_example) under the repaired variant: not broken, and inside the extended theorems' domains. *)
+Example C05_example_repaired :
+  breaks_move repaired w1 (RPy [a_] b_) [c_] m_rel_alias = false
+  /\ move_domain repaired w1 (RPy [a_] b_) [c_] m_rel_alias = true
+  /\ move_domain as_found w1 (RPy [a_] b_) [c_] m_rel_alias = false
+  /\ breaks_move repaired w1 (RPy [a_] b_) [] m_root_alias = false
+  /\ root_domain repaired w1 (RPy [a_] b_) m_root_alias = true
+  /\ root_domain repaired w1 (RPy [a_] b_) m_ex_root = true
+  /\ move_module_text repaired w1 (RPy [a_] b_) [c_] m_crash
+     = Done (mk [a_; p_] [IFrom 0 [c_] [(b_, None)]] [[b_; f_]]).
+Proof. exact repaired_examples. Qed.
+Print Assumptions C05_example_repaired.
 
 (* Rename of a module file p/b.py to p/nb.py (rename_legal: the new name is free, ...): for the same client
    styles, the model of rename_in_module (every occurrence of the word b that evaluates to the module, in import
@@ -128,64 +158,64 @@ Proof. exact example_inverse. Qed.
 Print Assumptions C05_example_inverse.
 
 Example C05_example_move_domain :
-  move_domain w3 (RPy [a_; p_] b_) [c_] m_ex_import = true
-  /\ move_domain w3 (RPy [a_; p_] b_) [c_] m_ex_rel = true
-  /\ move_domain w3 (RPy [a_; p_] b_) [c_] m_ex_from = true
+  move_domain as_found w3 (RPy [a_; p_] b_) [c_] m_ex_import = true
+  /\ move_domain as_found w3 (RPy [a_; p_] b_) [c_] m_ex_rel = true
+  /\ move_domain as_found w3 (RPy [a_; p_] b_) [c_] m_ex_from = true
   /\ resolve_ref w3 m_ex_import [a_; p_; b_; f_] = Some (OGlob (RPy [a_; p_] b_) f_)
   /\ resolve_ref w3 m_ex_rel [b_; f_] = Some (OGlob (RPy [a_; p_] b_) f_)
   /\ resolve_ref w3 m_ex_from [x_; f_] = Some (OGlob (RPy [a_; p_] b_) f_).
 Proof. exact example_move_domain. Qed.
 Print Assumptions C05_example_move_domain.
 
-(* ---- what the faithful model does NOT satisfy (each witness is a replay under findings/ that fails on the
+(* ---- what the faithful model of the code AS FOUND does not satisfy (each witness is a replay under findings/ that fails on the
    real library); the hypotheses of C05_move_module_refs exclude exactly these shapes. *)
 
 (* from . import b as x : relative from-imports are invisible to _change_import_statements *)
 Theorem C05_move_relative_alias_refuted :
-  exists w p b dest m, legal_move w p b dest = true /\ breaks_move w (RPy p b) dest m = true.
+  exists w p b dest m, legal_move w p b dest = true /\ breaks_move as_found w (RPy p b) dest m = true.
 Proof. exact rel_alias_refuted. Qed.
 Print Assumptions C05_move_relative_alias_refuted.
 
 (* destination = project root: _change_import_statements is skipped, from a import b as x stays *)
 Theorem C05_move_to_root_refuted :
-  exists w p b m, wf_layout (w_l w) = true /\ breaks_move w (RPy p b) [] m = true.
+  exists w p b m, wf_layout (w_l w) = true /\ breaks_move as_found w (RPy p b) [] m = true.
 Proof. exact to_root_refuted. Qed.
 Print Assumptions C05_move_to_root_refuted.
 
 (* import a.b ; a.g : the package name bound by the rewritten import disappears (one import statement) *)
 Theorem C05_move_package_name_refuted :
-  exists w p b dest m, legal_move w p b dest = true /\ breaks_move w (RPy p b) dest m = true
+  exists w p b dest m, legal_move w p b dest = true /\ breaks_move as_found w (RPy p b) dest m = true
                        /\ length (m_imports m) = 1.
 Proof. exact package_name_refuted. Qed.
 Print Assumptions C05_move_package_name_refuted.
 
 Theorem C05_move_bound_twice_refuted :
-  exists w p b dest m, legal_move w p b dest = true /\ breaks_move w (RPy p b) dest m = true.
+  exists w p b dest m, legal_move w p b dest = true /\ breaks_move as_found w (RPy p b) dest m = true.
 Proof. exact bound_twice_refuted. Qed.
 Print Assumptions C05_move_bound_twice_refuted.
 
 Theorem C05_move_head_bound_refuted :
-  exists w p b dest m, legal_move w p b dest = true /\ breaks_move w (RPy p b) dest m = true.
+  exists w p b dest m, legal_move w p b dest = true /\ breaks_move as_found w (RPy p b) dest m = true.
 Proof. exact head_bound_refuted. Qed.
 Print Assumptions C05_move_head_bound_refuted.
 
 Theorem C05_move_star_destination_refuted :
-  exists w p b dest m, legal_move w p b dest = true /\ breaks_move w (RPy p b) dest m = true.
+  exists w p b dest m, legal_move w p b dest = true /\ breaks_move as_found w (RPy p b) dest m = true.
 Proof. exact star_dest_refuted. Qed.
 Print Assumptions C05_move_star_destination_refuted.
 
 Theorem C05_move_package_relative_refuted :
-  exists w q dest m, wf_layout (w_l w) = true /\ breaks_move w (RDir q) dest m = true.
+  exists w q dest m, wf_layout (w_l w) = true /\ breaks_move as_found w (RDir q) dest m = true.
 Proof. exact leaving_package_refuted. Qed.
 Print Assumptions C05_move_package_relative_refuted.
 
 Theorem C05_move_ancestor_attribute_refuted :
-  exists w p b dest m, legal_move w p b dest = true /\ breaks_move w (RPy p b) dest m = true.
+  exists w p b dest m, legal_move w p b dest = true /\ breaks_move as_found w (RPy p b) dest m = true.
 Proof. exact ancestor_attr_refuted. Qed.
 Print Assumptions C05_move_ancestor_attribute_refuted.
 
 Theorem C05_three_dots_refuted :
-  exists w p b dest m, legal_move w p b dest = true /\ breaks_move w (RPy p b) dest m = true
+  exists w p b dest m, legal_move w p b dest = true /\ breaks_move as_found w (RPy p b) dest m = true
                        /\ breaks_rename w (RPy p b) nb_ m = true.
 Proof. exact three_dots_refuted. Qed.
 Print Assumptions C05_three_dots_refuted.
@@ -197,6 +227,6 @@ Print Assumptions C05_rename_bound_twice_refuted.
 
 (* from .. import b : the implementation raises AttributeError (nothing is changed) *)
 Example C05_move_crash_example :
-  exists w p b dest m, legal_move w p b dest = true /\ move_module_text w (RPy p b) dest m = Crash.
+  exists w p b dest m, legal_move w p b dest = true /\ move_module_text as_found w (RPy p b) dest m = Crash.
 Proof. exact crash_example. Qed.
 Print Assumptions C05_move_crash_example.
